@@ -29,7 +29,7 @@ type UserSpec struct {
 	Elem    string   `json:"elem"`              // element type for generic instantiations ("int", "string", "float64", "lib.Base", "[]int")
 }
 
-var stmtKinds = []string{"mix", "alias", "peek", "outer", "mid", "inner", "outerbox", "midbox", "map", "sum", "box", "apply", "pair", "iface", "ptriface", "embiface", "bound", "thunk", "mexpr", "seq", "chain", "dep", "nested", "recur", "boxmethodval"}
+var stmtKinds = []string{"toany", "asnamer", "boxembed", "mix", "alias", "peek", "outer", "mid", "inner", "outerbox", "midbox", "map", "sum", "box", "apply", "pair", "iface", "ptriface", "embiface", "bound", "thunk", "mexpr", "seq", "chain", "dep", "nested", "recur", "boxmethodval"}
 
 const baseSrc = `package base
 
@@ -72,6 +72,20 @@ func Sum[T Number](xs []T) T {
 func Id[T any](x T) T { return x }
 
 func Twice[T any](x T, f func(T) T) T { return f(Id(f(x))) }
+
+// conversions to interfaces inside generic bodies (runtime types recorded
+// while an instance is built by whoever requests it first)
+func ToAny[T any](x T) any { return x }
+
+func Anys[T any](xs []T) []any {
+	var out []any
+	for _, x := range xs {
+		out = append(out, x)
+	}
+	return out
+}
+
+func AsNamer[T Namer](x T) Namer { return x }
 
 // a chain of generic functions: users may reference only the outer ones
 func Outer[T any](v T) T { return Mid(v) }
@@ -189,6 +203,8 @@ func (ps *ProgSpec) sources() map[string]string {
 		w("type Deep struct{ Wrap }\n\n")
 		w("type Mix struct {\n\tWrap\n\tlib.Other\n}\n\n")
 		w("type WA = Wrap\n\n")
+		w("type BoxE = lib.Box[%s]\n\n", u.Elem)
+		w("type PairB struct{ lib.Box[%s] }\n\n", u.Elem)
 		w("type NT interface {\n\tlib.Namer\n\tlib.Titler\n}\n\n")
 		E := u.Elem
 		z := zeroOf(E)
@@ -197,6 +213,12 @@ func (ps *ProgSpec) sources() map[string]string {
 		for k, s := range u.Stmts {
 			w("func F%d() {\n", k)
 			switch s {
+			case "toany":
+				w("\tSink = append(Sink, lib.ToAny(%s), lib.Anys([]%s{%s}), lib.ToAny(Wrap{}), lib.ToAny(&Deep{}))\n", z, E, z)
+			case "asnamer":
+				w("\tSink = append(Sink, lib.AsNamer(Wrap{}).Name(), lib.AsNamer(&Deep{}).Name(), lib.AsNamer(lib.Base{}).Name())\n")
+			case "boxembed":
+				w("\tp := PairB{}\n\tg := p.Get\n\tvar b BoxE\n\tw := (*BoxE).Get\n\tSink = append(Sink, g(), w(&b), p.With(%s))\n", z)
 			case "mix":
 				w("\tvar n NT = Mix{}\n\tvar t lib.Titler = &Mix{}\n\tf := Mix{}.Title\n\tg := (*Mix).Reset\n\tm := &Mix{}\n\tg(m)\n\tvar i lib.Incer = m\n\ti.Inc()\n\tSink = append(Sink, n.Name(), n.Title(), t.Title(), f())\n")
 			case "alias":
